@@ -22,6 +22,9 @@ func checkC11(c *Check, a *Anchors) {
 		"the dynamic-variable cache is looked up, filled and stored inside ONE critical section of muDynamicCache, so a sh: expression is evaluated once and every task sees the same value whatever runs concurrently")
 	freshElements(c, a, "fresh-copy-per-call")
 	c11FreshTask(c, a)
+	copierNeverAliases(c, a)
+	c18FieldsClassified(c, a) // a new field of Executor / Compiler is state shared by every call: it must be reviewed (memo tables make a task depend on history)
+	noInPlaceMutationOfShared(c, a, "no-in-place-mutation")
 }
 
 // runPhaseRoots: functions whose reachable code runs concurrently / per call.
